@@ -47,6 +47,10 @@ impl Clone for SnapshotTracker {
 //@contract-file fn/tracker_get_safe.c
 //@end
 
+//@extract src/snapshot_tracker.rs :: SnapshotTracker :: get world props=C05
+//@contract-file fn/tracker_get.c
+//@end
+
 //@extract src/snapshot_tracker.rs :: SnapshotTracker :: open world props=C05+C06
 //@contract-file fn/tracker_open.c
 //@end
@@ -118,6 +122,7 @@ impl Clone for SnapshotTracker {
 //@end
 
 //@extract src/snapshot_nonce.rs :: Clone for SnapshotNonce :: clone world inherent props=C05
+//@world Self::new
 //@contract-file fn/nonce_clone.c
 //@end
 
